@@ -45,6 +45,27 @@ func corpus() []corpusEntry {
 			[][]cty.Value{nil, {ov("a", tv(n(1)), "b", tv(s("x")))}}},
 		{"F-07 with a placeholder member", []cty.Type{cty.List(tStr), tup(tNum, tDyn)}, [][]cty.Value{nil, {tv(n(1), cty.True), tv(n(1), s("x")), tv(n(2), cty.DynamicVal)}}},
 		{"F-07 object with a placeholder member", []cty.Type{cty.Map(tStr), obj("a", tNum, "b", tDyn)}, [][]cty.Value{nil, {ov("a", n(1), "b", cty.True)}}},
+		// --- F-07: one witness per violation signature the check reported on the unrepaired tree
+		{"F-07 empty tuple: second step panics 'not a collection type'", []cty.Type{cty.EmptyTuple, tup(tup(tNum)), cty.List(cty.List(tStr))},
+			[][]cty.Value{{cty.EmptyTupleVal}, {tv(tv(n(1)))}, nil}},
+		{"F-07 empty object: second step panics 'not a collection type'", []cty.Type{cty.EmptyObject, obj("a", obj("a", tNum)), cty.Map(cty.Map(tStr))},
+			[][]cty.Value{{cty.EmptyObjectVal}, {ov("a", ov("a", n(1)))}, nil}},
+		{"F-07 unsafe, object: 'not a string'", []cty.Type{cty.Map(cty.List(tNum)), cty.Map(tDyn), obj("a", tup(tNum), "b", tup(tStr))},
+			[][]cty.Value{nil, nil, {ov("a", tv(n(4)), "b", tv(s("ab"))), ov("a", tv(n(4)), "b", tv(s("12")))}}},
+		{"F-07 unsafe, object: 'not a number'", []cty.Type{cty.Map(tStr), obj("a", tNum, "b", tDyn)},
+			[][]cty.Value{nil, {ov("a", n(256), "b", s("1"))}}},
+		{"F-07 unsafe, tuple: 'not a number'", []cty.Type{cty.List(tStr), tup(tNum, tDyn)},
+			[][]cty.Value{nil, {tv(n(2), s("1"))}}},
+		{"F-07 unsafe, tuple: 'not a string'", []cty.Type{cty.List(cty.List(tNum)), tup(tup(tNum), tup(tStr)), cty.List(cty.Set(tStr))},
+			[][]cty.Value{nil, {tv(tv(n(0)), tv(s("b"))), tv(tv(n(0)), tv(s("7")))}, nil}},
+		{"F-07 result of another type (map of maps of numbers)", []cty.Type{cty.Map(cty.Map(tStr)), obj("a", obj("a", tNum), "b", obj("a", tStr)), cty.Map(obj("a", tNum)), obj("a", obj("a", tNum))},
+			[][]cty.Value{nil, nil, nil, {ov("a", ov("a", cty.NumberFloatVal(-79.75)))}}},
+		{"F-07 safe error, tuple of sets next to list of sets", []cty.Type{tup(cty.Set(tNum), cty.Set(tStr)), cty.List(cty.Set(tStr))},
+			[][]cty.Value{{tv(cty.SetVal([]cty.Value{n(-3)}), cty.SetVal([]cty.Value{s("x")}))}, nil}},
+		{"F-07 result of another type (list of maps of bools)", []cty.Type{cty.List(obj("k", tStr, "z", tNum)), tup(obj("k", tBoo)), tup(obj("k", tStr))},
+			[][]cty.Value{nil, {tv(ov("k", cty.True))}, nil}},
+		{"F-07 safe error, object of tuples next to maps of tuples", []cty.Type{obj("a", tup(tNum, tNum), "b", tup(tNum, tStr)), cty.Map(tup(tStr, tStr)), cty.Map(tup(tNum, tStr))},
+			[][]cty.Value{{ov("a", tv(n(2), n(4)), "b", tv(n(0), s("ab")))}, nil, nil}},
 		// --- F-29: set holding an unknown member converted to a list of another element type
 		{"F-29 set holding unknown next to list", []cty.Type{cty.List(tStr), cty.Set(tNum)},
 			[][]cty.Value{nil, {cty.SetVal([]cty.Value{n(1), cty.UnknownVal(tNum)})}}},
